@@ -349,6 +349,11 @@ func (c *CCIPMessageExecCostUSD18Calculator) MessageExecCostUSD18(
 	messages []cciptypes.Message,
 ) (map[cciptypes.Bytes32]plugintypes.USD18, error) {
 	messageExecCosts := make(map[cciptypes.Bytes32]plugintypes.USD18)
+	if len(messages) == 0 {
+		// Nothing to price (e.g. no pending message could be read); messages[0] below would panic.
+		return messageExecCosts, nil
+	}
+
 	feeComponents, err := c.ccipReader.GetDestChainFeeComponents(ctx)
 	if err != nil {
 		return nil, fmt.Errorf("unable to get fee components: %w", err)
